@@ -165,6 +165,10 @@ def run_array_cases(cases, res):
             if shape == (2, 2):
                 # the rendering of a 2-D object (a list of NumPy string arrays), fed back as it is
                 y2 = fx.Fxp(x.bin(prefix='0b'), s, n, nf, raw=True); z2 = fx.Fxp(None, s, n, nf); z2.set_val(x.hex(), raw=True)
+                # the same rows in MIXED containers (a list row first, array rows later; and the other way round)
+                rows_ = x.bin(prefix='0b'); m1 = fx.Fxp(None, s, n, nf); m1.set_val([list(rows_[0]), rows_[1]], raw=True); m2 = fx.Fxp([rows_[0], tuple(rows_[1])], s, n, nf, raw=True)
+                if lib.codes_of(m1) != codes or lib.codes_of(m2) != codes:
+                    res.fail(c, 'C11: feeding the rendered rows of a 2-D array back in mixed containers (a list row and an array row) does not restore the codes', expected=codes, got=(lib.codes_of(m1), lib.codes_of(m2))); continue
                 if lib.codes_of(y2) != codes or lib.codes_of(z2) != codes or list(np.asarray(y2.val).shape) != [2, 2]:
                     res.fail(c, 'C11: feeding the rendered strings of a 2-D array back does not restore the codes', expected=codes, got=(lib.codes_of(y2), lib.codes_of(z2))); continue
             br = np.array(x.base_repr(10)).reshape(-1).tolist()
@@ -173,6 +177,9 @@ def run_array_cases(cases, res):
             if shape == (4,):
                 y = fx.Fxp(x.bin(prefix='0b'), s, n, nf, raw=True); z = fx.Fxp(None, s, n, nf); z.set_val(x.hex(), raw=True)
                 w = fx.Fxp(None, s, n, nf); w.from_bin(x.bin(), raw=True)
+                sb_ = x.bin(prefix='0b'); mm = fx.Fxp(None, s, n, nf); mm.set_val([str(sb_[0]), np.array(str(sb_[1])), np.str_(sb_[2]), str(sb_[3])], raw=True)      # (a plain string first, a 0-d string array and a NumPy string later)
+                if lib.codes_of(mm) != codes:
+                    res.fail(c, 'C11: feeding rendered strings back in a list that mixes plain strings, 0-d string arrays and NumPy strings does not restore the codes', expected=codes, got=lib.codes_of(mm)); continue
                 if lib.codes_of(y) != codes or lib.codes_of(z) != codes or lib.codes_of(w) != codes:
                     res.fail(c, 'C11: feeding the rendered strings of an array back does not restore the codes', expected=codes, got=(lib.codes_of(y), lib.codes_of(z), lib.codes_of(w))); continue
                 # the same strings held in a NumPy string array instead of a list
